@@ -35,6 +35,12 @@ impl FqVarExtension for FqVar {
         // `y = sqrt(num/den)`
         let (was_square, y) = Fq::sqrt_ratio_zeta(&Fq::ONE, &den);
 
+        // A constant has no constraint system to allocate the hints in; as for
+        // the other arkworks gadgets, the result of a constant is a constant.
+        if self.is_constant() {
+            return Ok((Boolean::constant(was_square), FqVar::constant(y)));
+        }
+
         let cs = self.cs();
         let was_square_var = Boolean::new_witness(cs.clone(), || Ok(was_square))?;
         let y_var = FqVar::new_witness(cs.clone(), || Ok(y))?;
